@@ -332,9 +332,21 @@ impl Display for Format<'_, Formula> {
         match self.0 {
             Formula::AtomicFormula(a) => Format(a).fmt(f),
             Formula::UnaryFormula { formula, .. } => self.fmt_unary(Format(formula.as_ref()), f),
-            Formula::QuantifiedFormula { formula, .. } => {
-                self.fmt_unary(Format(formula.as_ref()), f)
-            }
+            Formula::QuantifiedFormula {
+                quantification,
+                formula,
+            } => match formula.as_ref() {
+                // The parser reads the variables of a quantification greedily: a comparison
+                // that begins with a variable must be set apart from them
+                Formula::AtomicFormula(AtomicFormula::Comparison(c))
+                    if Format(c)
+                        .to_string()
+                        .starts_with(|c: char| c.is_ascii_uppercase() || c == '_') =>
+                {
+                    write!(f, "{} ({})", Format(quantification), Format(c))
+                }
+                _ => self.fmt_unary(Format(formula.as_ref()), f),
+            },
             Formula::BinaryFormula { lhs, rhs, .. } => {
                 self.fmt_binary(Format(lhs.as_ref()), Format(rhs.as_ref()), f)
             }
